@@ -76,6 +76,8 @@ CDepth == Cardinality({i \in 1..Len(g.st) : g.st[i].t \in {"q", "item"}})
 IDepth == Cardinality({i \in 1..Len(g.st) : g.st[i].t \in InlKinds})
 
 TextHosts == {"h", "p", "em", "st", "del", "link"}
+RECURSIVE HasKind(_, _)
+HasKind(s, t) == \E i \in 1..Len(s) : s[i].t = t \/ HasKind(s[i].k, t)
 Building == g.ph = "doc" /\ g.sz < MaxNodes
 
 Push(f) == g' = [g EXCEPT !.st = Append(@, f), !.sz = @ + 1]
@@ -105,7 +107,10 @@ AddSB ==
 OpenI ==
   /\ Building /\ Len(Top.k) < MaxKids
   /\ Top.t \in TextHosts /\ IDepth < MaxInl
-  /\ \E t \in Inls : t \notin StackKinds /\ Push(Frame(t, 0, ""))
+  /\ \E t \in Inls : /\ t \notin StackKinds
+                     \* the formula extension misreads a second $..$ in the same block
+                     /\ t = "math" => \A i \in 1..Len(g.st) : g.st[i].t \in TextHosts => ~HasKind(g.st[i].k, "math")
+                     /\ Push(Frame(t, 0, ""))
 
 CloseI ==
   /\ g.ph = "doc" /\ Top.t \in InlKinds
